@@ -19,6 +19,19 @@ static COORD: [AtomicU64; 4] = [AtomicU64::new(0), AtomicU64::new(0), AtomicU64:
 static START: Once = Once::new();
 /// (format/alphabet label, chunking, input bytes) of the case being executed (C15 only: inputs are small)
 static INPUT: Mutex<(String, String, Vec<u8>)> = Mutex::new((String::new(), String::new(), Vec::new()));
+/// (format, alphabet, chunking as JSON) of the same case, for the machine-readable WATCHDOG-CASE line
+static CASE: Mutex<(String, String, String)> = Mutex::new((String::new(), String::new(), String::new()));
+
+/// Remember format / alphabet / chunking (JSON) of the case about to run.
+pub fn set_case(fmt: &str, alpha: &str, chunking_json: String) {
+    if let Ok(mut g) = CASE.lock() {
+        g.0.clear();
+        g.0.push_str(fmt);
+        g.1.clear();
+        g.1.push_str(alpha);
+        g.2 = chunking_json;
+    }
+}
 
 /// Remember the input of the case about to run so that a watchdog abort can print a replayable case.
 pub fn set_input(label: &str, chunking: &str, data: &[u8]) {
@@ -75,6 +88,15 @@ pub fn start() {
                     if let Ok(g) = INPUT.lock() {
                         if !g.0.is_empty() {
                             eprintln!("WATCHDOG: last input handed to a reader: {} chunking {} bytes {:?}", g.0, g.1, g.2);
+                            if let Ok(c) = CASE.lock() {
+                                if !c.0.is_empty() {
+                                    // one line the driver can parse and replay
+                                    eprintln!(
+                                        "WATCHDOG-CASE: {{\"format\": {:?}, \"alphabet\": {:?}, \"chunking\": {}, \"bytes\": {:?}, \"origin\": {{\"base\": \"watchdog\", \"detail\": \"case under execution when no progress was made for {} s\"}}}}",
+                                        c.0, c.1, c.2, g.2, LIMIT_S
+                                    );
+                                }
+                            }
                         }
                     }
                     std::process::exit(3);
